@@ -110,20 +110,29 @@ func VerifMultiCorrelation() {
 	n := verifParam("CALLS")
 	m := newMulti(4)
 	var calls []hrpc.Call
+	var cancels []context.CancelFunc
 	for i := 0; i < n; i++ {
 		reg := regA
 		if verifBool() {
 			reg = regB
 		}
 		var cl hrpc.Call
+		cctx, cancel := context.WithCancel(context.Background())
+		cancels = append(cancels, cancel)
 		if verifBool() {
-			cl = vGet(context.Background(), vKeys[i], reg)
+			cl = vGet(cctx, vKeys[i], reg)
 		} else {
-			cl = vPut(context.Background(), vKeys[i], reg)
+			cl = vPut(cctx, vKeys[i], reg)
 		}
 		calls = append(calls, cl)
 	}
 	m.add(calls)
+	dropped := -1
+	if verifBool() {
+		// one caller gives up before the batch is flushed: its call is dropped from the request
+		dropped = verifInt(0, n-1)
+		cancels[dropped]()
+	}
 	verifAssert(c.trySend(m) == nil, "send")
 	var id uint32
 	for k := range c.sent {
@@ -138,7 +147,7 @@ func VerifMultiCorrelation() {
 		rar := &pb.RegionActionResult{}
 		var members []int
 		for i, cl := range calls {
-			if cl.Region() == reg {
+			if cl.Region() == reg && i != dropped {
 				members = append(members, i)
 			}
 		}
@@ -181,6 +190,10 @@ func VerifMultiCorrelation() {
 	vPending, vUnmarshalFails = nil, nil
 	verifAssert(err == nil, "a conforming multi-response is processed")
 	for i, cl := range calls {
+		if i == dropped {
+			verifAssert(vResults(cl) == 0, "a call dropped from the request gets no result")
+			continue
+		}
 		verifAssert(vResults(cl) == 1, "every caller of the multi gets exactly one result")
 		r := <-cl.ResultChan()
 		if wantErr[i] {
